@@ -103,6 +103,15 @@ def gen(rng, k):
         script.append(dict(t=900_000, s=m['stack'], op='ca_unsubscribe_request', ca=m['ca'], cid=gone))
         m['reqs'] = [c for c in m['reqs'] if c != gone]
         m['unsubscribed'] = gone
+    same_addr = False
+    probe = [m for m in meta if m['phase'] == 'normal' and m['addr'] is not None and stacks[m['stack']]['cas'][m['ca']]['bypass']
+             and not any(c['addr'] == m['addr'] and not c['bypass'] for sd in stacks for c in sd['cas'])]
+    if kind == 'has' and probe and not tx_errors and rng.random() < 0.12:
+        # the requester uses the very address of one of the CAs it asks (a tester probing an address from that address; both were
+        # configured without claiming): a request is served whatever its source address
+        same_addr = True
+        ra = rng.choice(probe)['addr']
+        stacks[0]['cas'][0]['addr'] = ra
     owned = [m['addr'] for m in meta if m['addr'] is not None]
     for _ in range(rng.randint(1, 5)):
         t = 1_000_000 + rng.randint(2000, 200000)
@@ -112,6 +121,10 @@ def gen(rng, k):
         dp = rng.choice([0, 0, 0, 1])
         if not req_has_addr:
             pgn = rng.choice([0xEE00, 0xEE00, 0xFECA])
+        if same_addr:
+            pgn = rng.choice([0xFECA, 0xFEDA, 0, 0x3FFFF, rng.getrandbits(16)])      # (no claim exchange between the two: they never contend)
+            if (pgn & 0xFF00) == 0xEE00:
+                pgn = 0xFECA
         if req_has_addr and dest != 255 and dest in owned and rng.random() < 0.35 and not any(c.get('accept_all') for sd in stacks for c in sd['cas']):
             # the requester has a multi-packet transfer to the same destination in progress when it sends the request
             script.append(dict(t=t, s=0, op='ca_send', ca=0, a=[0, 0xD0, dest, 6, dict(seed=rng.getrandbits(20), len=rng.choice([9, 20]))]))
@@ -123,7 +136,7 @@ def gen(rng, k):
         # their addresses like any other CA — whatever traffic for those addresses went by while they were still waiting
         for m in waiting:
             script.append(dict(t=1_300_000 + rng.randint(0, 100000), s=0, op='ca_request', ca=0,
-                               a=[0, rng.choice([0xFEE0 + m['ca'], 0xEE00]), rng.choice([m['addr'], m['addr'], 255])]))
+                               a=[0, rng.choice([0xFEE0 + m['ca'], 0xEE00 if not same_addr else 0xFEE4 + m['ca']]), rng.choice([m['addr'], m['addr'], 255])]))
         horizon = 1_560_000
     script.sort(key=lambda e: e['t'])
     sc = dict(stacks=stacks, lat=[rng.choice([0, 1, 5000])], jit=[1], script=script, horizon=horizon, meta=meta, requester=dict(addr=ra, has=req_has_addr))
